@@ -323,8 +323,20 @@ structure ValSem (F : Type) where
   float : NodeId → S F → Option F
   str : NodeId → S F → Option Bytes
   enum : NodeId → S F → Option Int
+  /-- what formula variables may additionally draw on: boolean value, current entry of an
+  enumeration, and the limits named by the `.Min` / `.Max` / `.Inc` accessors -/
+  bool : NodeId → S F → Option Bool
+  entry : NodeId → S F → Option NodeId
+  intMin : NodeId → S F → Option Int
+  intMax : NodeId → S F → Option Int
+  intInc : NodeId → S F → Option (Option Int)
+  floatMin : NodeId → S F → Option F
+  floatMax : NodeId → S F → Option F
+  floatInc : NodeId → S F → Option (Option F)
 
-def ValSem.none (F : Type) : ValSem F := ⟨fun _ _ => .none, fun _ _ => .none, fun _ _ => .none, fun _ _ => .none⟩
+def ValSem.none (F : Type) : ValSem F :=
+  ⟨fun _ _ => .none, fun _ _ => .none, fun _ _ => .none, fun _ _ => .none, fun _ _ => .none, fun _ _ => .none,
+   fun _ _ => .none, fun _ _ => .none, fun _ _ => .none, fun _ _ => .none, fun _ _ => .none, fun _ _ => .none⟩
 
 /-- R2. A referenced node read as integer: integer kind as is, float kind truncated
 (`as i64`), enumeration its integer value. -/
@@ -434,6 +446,167 @@ def regBytes (prev : ValSem F) (rb : RegBase) (s : S F) : Option Bytes :=
       | _ => .none
     else .none
 
+/-! #### Formula nodes (swiss knives, converters)
+
+The formula evaluator itself (`cx.ops.eval`, C05) and the syntax of variable names
+(`VarKind.ofName`, characterised by `variable_names` in Props/C03.lean) are parameters /
+shared vocabulary; what is stated here is WHICH environment a formula is evaluated in and
+what each variable is bound to. -/
+
+def boolValued (n : NodeId) : Bool :=
+  match cx.graph n with
+  | some (.boolean ..) => true
+  | _ => false
+
+/-- the `NumericValue` of an enumeration entry (its `Value` converted when none is declared) -/
+def entryNumericValue (e : NodeId) : Option F :=
+  match cx.graph e with
+  | some (.enumEntry _ v numeric _) =>
+    some (match numeric with
+      | some f => f
+      | .none => cx.ops.i2f v)
+  | _ => .none
+
+/-- F1. The expression a node denotes as plain variable (and as `TO` of a converter):
+integer kind its integer value, float kind its float value, boolean 1 / 0, enumeration the
+`NumericValue` of its current entry. -/
+def exprOfNode (prev : ValSem F) (n : NodeId) (s : S F) : Option E :=
+  if intValued cx n then (prev.int n s).map cx.ops.exprOfInt
+  else if floatValued cx n then (prev.float n s).map cx.ops.exprOfFloat
+  else if boolValued cx n then (prev.bool n s).map fun b => cx.ops.exprOfInt (if b then 1 else 0)
+  else if enumValued cx n then
+    (prev.entry n s).bind fun e => (entryNumericValue cx e).map cx.ops.exprOfFloat
+  else .none
+
+/-- F2. What a `<pVariable Name="X.acc">` is bound to: `X` / `X.Value` the node's value,
+`X.Min` / `X.Max` / `X.Inc` its current limits (a node without increment has no `.Inc`),
+`X.Enum.<entry>` the declared integer value of that entry of the enumeration. -/
+def varExpr (prev : ValSem F) (k : VarKind) (n : NodeId) (s : S F) : Option E :=
+  match k with
+  | .value => exprOfNode cx prev n s
+  | .min =>
+    if intValued cx n then (prev.intMin n s).map cx.ops.exprOfInt
+    else if floatValued cx n then (prev.floatMin n s).map cx.ops.exprOfFloat
+    else .none
+  | .max =>
+    if intValued cx n then (prev.intMax n s).map cx.ops.exprOfInt
+    else if floatValued cx n then (prev.floatMax n s).map cx.ops.exprOfFloat
+    else .none
+  | .inc =>
+    if intValued cx n then (prev.intInc n s).bind fun o => o.map cx.ops.exprOfInt
+    else if floatValued cx n then (prev.floatInc n s).bind fun o => o.map cx.ops.exprOfFloat
+    else .none
+  | .enumEntry name =>
+    match cx.graph n with
+    | some (.enumeration _ entries _) => (entryValueNamed cx entries name).map cx.ops.exprOfInt
+    | _ => .none
+
+/-- F3. The variable bindings, in document order on top of `env` (newest first). -/
+def specVars (prev : ValSem F) : List (String × NodeId) → Env E → S F → Option (Env E)
+  | [], env, _ => some env
+  | (name, n) :: vs, env, s =>
+    (resOpt (VarKind.ofName name)).bind fun k =>
+    (varExpr cx prev k n s).bind fun e => specVars prev vs ((name, e) :: env) s
+
+/-- F4. The formula environment: the bindings present before (`TO` / `FROM`), then the
+variables, then the constants, then the expressions — a later binding shadows an earlier
+one of the same name (lookup finds the first of the list). -/
+def specEnv (prev : ValSem F) (fm : Formulaic F E) (env0 : Env E) (s : S F) : Option (Env E) :=
+  (specVars cx prev fm.vars env0 s).map fun env1 =>
+    fm.exprs.reverse ++ ((fm.consts.map fun c => (c.1, numLitExpr cx c.2)).reverse ++ env1)
+
+/-- F5. A swiss knife: its formula in that environment. -/
+def knifeResult (prev : ValSem F) (fm : Formulaic F E) (formula : E) (s : S F) : Option (EvalResult F) :=
+  (specEnv cx prev fm [] s).bind fun env => resOpt (evalFormula cx env formula)
+
+/-- F6. A converter read: FormulaFrom with `TO` = the current value of pValue. -/
+def converterResult (prev : ValSem F) (fm : Formulaic F E) (formulaFrom : E) (pv : NodeId) (s : S F) :
+    Option (EvalResult F) :=
+  (exprOfNode cx prev pv s).bind fun to =>
+  (specEnv cx prev fm [("TO", to)] s).bind fun env => resOpt (evalFormula cx env formulaFrom)
+
+/-- R13. Boolean: On / Off. -/
+def specBoolP (prev : ValSem F) (n : NodeId) (s : S F) : Option Bool :=
+  match cx.graph n with
+  | some (.boolean _ value onV offV) =>
+    (sonInt cx prev value s).bind fun v =>
+      if v == onV then some true else if v == offV then some false else .none
+  | _ => .none
+
+/-- R14. Enumeration: the current entry is the first declared entry with the current value. -/
+def specCurrentEntryP (prev : ValSem F) (n : NodeId) (s : S F) : Option NodeId :=
+  match cx.graph n with
+  | some (.enumeration _ entries value) =>
+    (sonInt cx prev value s).bind fun v => firstEntryWithValue cx entries v
+  | _ => .none
+
+def immFloat (prev : ValSem F) (v : ImmOrPNode F) (s : S F) : Option F :=
+  match v with
+  | .imm a => some a
+  | .pnode p => numFloat cx prev p s
+
+/-- R16. `min`: `<Min>` / `<pMin>` of an Integer; the type's range for an IntReg; the range
+of the bit field for a MaskedIntReg; `i64::MIN` for an IntConverter; an IntSwissKnife's
+minimum is its value. -/
+def specIntMinP (prev : ValSem F) (n : NodeId) (s : S F) : Option Int :=
+  match cx.graph n with
+  | some (.integer _ _ mn _ _) => sonInt cx prev mn s
+  | some (.intReg _ sign _) => some (match sign with | .signed => -(2 ^ 63) | .unsigned => 0)
+  | some (.maskedIntReg rb mask sign endian) =>
+    (immInt cx prev rb.length s).bind fun l =>
+      resOpt (cx.ops.maskMin cx.profile mask (usizeOf l) endian sign)
+  | some (.intConverter ..) => some (-(2 ^ 63))
+  | some (.intSwissKnife _ fm formula) => (knifeResult cx prev fm formula s).map (EvalResult.asInteger cx)
+  | _ => .none
+
+def specIntMaxP (prev : ValSem F) (n : NodeId) (s : S F) : Option Int :=
+  match cx.graph n with
+  | some (.integer _ _ _ mx _) => sonInt cx prev mx s
+  | some (.intReg ..) => some (2 ^ 63 - 1)
+  | some (.maskedIntReg rb mask sign endian) =>
+    (immInt cx prev rb.length s).bind fun l =>
+      resOpt (cx.ops.maskMax cx.profile mask (usizeOf l) endian sign)
+  | some (.intConverter ..) => some (2 ^ 63 - 1)
+  | some (.intSwissKnife _ fm formula) => (knifeResult cx prev fm formula s).map (EvalResult.asInteger cx)
+  | _ => .none
+
+/-- R17. `inc`: `<Inc>` / `<pInc>` of an Integer; registers and formula nodes have none. -/
+def specIntIncP (prev : ValSem F) (n : NodeId) (s : S F) : Option (Option Int) :=
+  match cx.graph n with
+  | some (.integer _ _ _ _ inc) => (immInt cx prev inc s).map some
+  | some (.intReg ..) => some .none
+  | some (.maskedIntReg ..) => some .none
+  | some (.intConverter ..) => some .none
+  | some (.intSwissKnife ..) => some .none
+  | _ => .none
+
+def specFloatMinP (prev : ValSem F) (n : NodeId) (s : S F) : Option F :=
+  match cx.graph n with
+  | some (.float _ _ mn _ _) => sonFloat cx prev mn s
+  | some (.floatReg ..) => some cx.ops.fMin
+  | some (.converter ..) => some cx.ops.fMin
+  | some (.swissKnife _ fm formula) => (knifeResult cx prev fm formula s).map (EvalResult.asFloat cx)
+  | _ => .none
+
+def specFloatMaxP (prev : ValSem F) (n : NodeId) (s : S F) : Option F :=
+  match cx.graph n with
+  | some (.float _ _ _ mx _) => sonFloat cx prev mx s
+  | some (.floatReg ..) => some cx.ops.fMax
+  | some (.converter ..) => some cx.ops.fMax
+  | some (.swissKnife _ fm formula) => (knifeResult cx prev fm formula s).map (EvalResult.asFloat cx)
+  | _ => .none
+
+def specFloatIncP (prev : ValSem F) (n : NodeId) (s : S F) : Option (Option F) :=
+  match cx.graph n with
+  | some (.float _ _ _ _ inc) =>
+    match inc with
+    | some i => (immFloat cx prev i s).map some
+    | .none => some .none
+  | some (.floatReg ..) => some .none
+  | some (.converter ..) => some .none
+  | some (.swissKnife ..) => some .none
+  | _ => .none
+
 /-- the reference value semantics one level up -/
 def valStep (prev : ValSem F) : ValSem F where
   int n s :=
@@ -446,12 +619,20 @@ def valStep (prev : ValSem F) : ValSem F where
       (resOpt (cx.ops.intFromSlice bs endian sign)).bind fun x =>
       (immInt cx prev rb.length s).bind fun l =>
         resOpt (cx.ops.applyMask cx.profile mask x (usizeOf l) endian sign)
+    | some (.intConverter _ fm _ formulaFrom pv) =>                             -- F6 IntConverter
+      (converterResult cx prev fm formulaFrom pv s).map (EvalResult.asInteger cx)
+    | some (.intSwissKnife _ fm formula) =>                                     -- F5 IntSwissKnife
+      (knifeResult cx prev fm formula s).map (EvalResult.asInteger cx)
     | _ => .none
   float n s :=
     match cx.graph n with
     | some (.float _ vk _ _ _) => vkFloat cx prev vk s                        -- R3
     | some (.floatReg rb endian) =>                                             -- R9 FloatReg
       (regBytes cx prev rb s).bind fun bs => resOpt (cx.ops.floatFromSlice bs endian)
+    | some (.converter _ fm _ formulaFrom pv) =>                                -- F6 Converter
+      (converterResult cx prev fm formulaFrom pv s).map (EvalResult.asFloat cx)
+    | some (.swissKnife _ fm formula) =>                                        -- F5 SwissKnife
+      (knifeResult cx prev fm formula s).map (EvalResult.asFloat cx)
     | _ => .none
   str n s :=
     match cx.graph n with
@@ -464,26 +645,23 @@ def valStep (prev : ValSem F) : ValSem F where
     match cx.graph n with
     | some (.enumeration _ _ value) => sonInt cx prev value s                  -- R12 Enumeration
     | _ => .none
+  bool := specBoolP cx prev
+  entry := specCurrentEntryP cx prev
+  intMin := specIntMinP cx prev
+  intMax := specIntMaxP cx prev
+  intInc := specIntIncP cx prev
+  floatMin := specFloatMinP cx prev
+  floatMax := specFloatMaxP cx prev
+  floatInc := specFloatIncP cx prev
 
 /-- the reference value semantics at reference depth `d` -/
 def valSem : Nat → ValSem F
   | 0 => ValSem.none F
   | d + 1 => valStep cx (valSem d)
 
-/-- R13. Boolean: On / Off. -/
-def specBool (d : Nat) (n : NodeId) (s : S F) : Option Bool :=
-  match cx.graph n with
-  | some (.boolean _ value onV offV) =>
-    (sonInt cx (valSem cx d) value s).bind fun v =>
-      if v == onV then some true else if v == offV then some false else .none
-  | _ => .none
-
-/-- R14. Enumeration: the current entry is the first declared entry with the current value. -/
-def specCurrentEntry (d : Nat) (n : NodeId) (s : S F) : Option NodeId :=
-  match cx.graph n with
-  | some (.enumeration _ entries value) =>
-    (sonInt cx (valSem cx d) value s).bind fun v => firstEntryWithValue cx entries v
-  | _ => .none
+/-- R13 / R14 at reference depth `d` -/
+def specBool (d : Nat) (n : NodeId) (s : S F) : Option Bool := specBoolP cx (valSem cx d) n s
+def specCurrentEntry (d : Nat) (n : NodeId) (s : S F) : Option NodeId := specCurrentEntryP cx (valSem cx d) n s
 
 /-- R15. Raw register: address, length, content. -/
 def specRegAddress (d : Nat) (n : NodeId) (s : S F) : Option Int :=
@@ -518,9 +696,11 @@ structure SetSem (F : Type) where
   float : NodeId → F → S F → Option (S F)
   str : NodeId → Bytes → S F → Option (S F)
   enum : NodeId → Int → S F → Option (S F)
+  /-- boolean write (a converter's pValue may be a Boolean) -/
+  bool : NodeId → Bool → S F → Option (S F)
 
 def SetSem.none (F : Type) : SetSem F :=
-  ⟨fun _ _ _ => .none, fun _ _ _ => .none, fun _ _ _ => .none, fun _ _ _ => .none⟩
+  ⟨fun _ _ _ => .none, fun _ _ _ => .none, fun _ _ _ => .none, fun _ _ _ => .none, fun _ _ _ => .none⟩
 
 /-- W2. Writing an integer to a referenced node: integer kind as is, float kind converted,
 enumeration by value. -/
@@ -585,6 +765,30 @@ def regWriteBytes (pv : ValSem F) (rb : RegBase) (buf : Bytes) (s : S F) : Optio
         | _ => .none
     else .none
 
+/-- W12. Boolean write: On / Off value into the value target. -/
+def specBoolSetP (prev : SetSem F) (n : NodeId) (b : Bool) (s : S F) : Option (S F) :=
+  match cx.graph n with
+  | some (.boolean _ value onV offV) => sonSetInt cx prev value (if b then onV else offV) s
+  | _ => .none
+
+/-- F7. Where the result of FormulaTo goes: an integer target receives its integer
+conversion, a float target its float conversion, a boolean target `true` exactly when the
+result is non-zero, an enumeration target the entry with that integer value. -/
+def setResult (prev : SetSem F) (p : NodeId) (r : EvalResult F) (s : S F) : Option (S F) :=
+  if intValued cx p then prev.int p (EvalResult.asInteger cx r) s
+  else if floatValued cx p then prev.float p (EvalResult.asFloat cx r) s
+  else if boolValued cx p then prev.bool p (EvalResult.asBool cx r) s
+  else if enumValued cx p then prev.enum p (EvalResult.asInteger cx r) s
+  else .none
+
+/-- F8. A converter write: FormulaTo in the environment `FROM` (= the written value) <
+variables < constants < expressions — the variables read BEFORE anything is written —, then
+the result written to pValue. -/
+def converterWrite (pv : ValSem F) (prev : SetSem F) (fm : Formulaic F E) (formulaTo : E) (p : NodeId)
+    (from_ : E) (s : S F) : Option (S F) :=
+  (specEnv cx pv fm [("FROM", from_)] s).bind fun env =>
+  (resOpt (evalFormula cx env formulaTo)).bind fun r => setResult cx prev p r s
+
 /-- the reference write semantics one level up -/
 def setStep (pv : ValSem F) (prev : SetSem F) : SetSem F where
   int n v s :=
@@ -603,6 +807,8 @@ def setStep (pv : ValSem F) (prev : SetSem F) : SetSem F where
         if 0 ≤ l then
           (resOpt (cx.ops.bytesFromInt new l.toNat endian sign)).bind fun buf => regWriteBytes cx pv rb buf s
         else .none
+    | some (.intConverter _ fm formulaTo _ p) =>                                         -- F8 IntConverter
+      converterWrite cx pv prev fm formulaTo p (cx.ops.exprOfInt v) s
     | _ => .none
   float n v s :=
     match cx.graph n with
@@ -612,6 +818,8 @@ def setStep (pv : ValSem F) (prev : SetSem F) : SetSem F where
         if 0 ≤ l then
           (resOpt (cx.ops.bytesFromFloat v l.toNat endian)).bind fun buf => regWriteBytes cx pv rb buf s
         else .none
+    | some (.converter _ fm formulaTo _ p) =>                                            -- F8 Converter
+      converterWrite cx pv prev fm formulaTo p (cx.ops.exprOfFloat v) s
     | _ => .none
   str n v s :=
     match cx.graph n with
@@ -630,6 +838,7 @@ def setStep (pv : ValSem F) (prev : SetSem F) : SetSem F where
       | some _ => sonSetInt cx prev value v s      -- only declared values
       | .none => .none
     | _ => .none
+  bool := specBoolSetP cx prev
 
 /-- the reference write semantics at reference depth `d` -/
 def setSem : Nat → SetSem F
@@ -637,10 +846,7 @@ def setSem : Nat → SetSem F
   | d + 1 => setStep cx (valSem cx d) (setSem d)
 
 /-- W12. Boolean write, W13. command execute, W14. raw register write. -/
-def specBoolSet (d : Nat) (n : NodeId) (b : Bool) (s : S F) : Option (S F) :=
-  match cx.graph n with
-  | some (.boolean _ value onV offV) => sonSetInt cx (setSem cx d) value (if b then onV else offV) s
-  | _ => .none
+def specBoolSet (d : Nat) (n : NodeId) (b : Bool) (s : S F) : Option (S F) := specBoolSetP cx (setSem cx d) n b s
 def specCmdExecute (d : Nat) (n : NodeId) (s : S F) : Option (S F) :=
   match cx.graph n with
   | some (.command _ value cmdValue) =>
@@ -655,59 +861,13 @@ def specRegWrite (d : Nat) (n : NodeId) (data : Bytes) (s : S F) : Option (S F) 
 
 /-! ### minimum / maximum / increment, maximal string length, and their setters -/
 
-def immFloat (prev : ValSem F) (v : ImmOrPNode F) (s : S F) : Option F :=
-  match v with
-  | .imm a => some a
-  | .pnode p => numFloat cx prev p s
-
-/-- R16. `min`: `<Min>` / `<pMin>` of an Integer; the type's range for an IntReg; the range
-of the bit field for a MaskedIntReg. -/
-def specIntMin (d : Nat) (n : NodeId) (s : S F) : Option Int :=
-  match cx.graph n with
-  | some (.integer _ _ mn _ _) => sonInt cx (valSem cx d) mn s
-  | some (.intReg _ sign _) => some (match sign with | .signed => -(2 ^ 63) | .unsigned => 0)
-  | some (.maskedIntReg rb mask sign endian) =>
-    (immInt cx (valSem cx d) rb.length s).bind fun l =>
-      resOpt (cx.ops.maskMin cx.profile mask (usizeOf l) endian sign)
-  | _ => .none
-
-def specIntMax (d : Nat) (n : NodeId) (s : S F) : Option Int :=
-  match cx.graph n with
-  | some (.integer _ _ _ mx _) => sonInt cx (valSem cx d) mx s
-  | some (.intReg ..) => some (2 ^ 63 - 1)
-  | some (.maskedIntReg rb mask sign endian) =>
-    (immInt cx (valSem cx d) rb.length s).bind fun l =>
-      resOpt (cx.ops.maskMax cx.profile mask (usizeOf l) endian sign)
-  | _ => .none
-
-/-- R17. `inc`: `<Inc>` / `<pInc>` of an Integer; registers have none. -/
-def specIntInc (d : Nat) (n : NodeId) (s : S F) : Option (Option Int) :=
-  match cx.graph n with
-  | some (.integer _ _ _ _ inc) => (immInt cx (valSem cx d) inc s).map some
-  | some (.intReg ..) => some .none
-  | some (.maskedIntReg ..) => some .none
-  | _ => .none
-
-def specFloatMin (d : Nat) (n : NodeId) (s : S F) : Option F :=
-  match cx.graph n with
-  | some (.float _ _ mn _ _) => sonFloat cx (valSem cx d) mn s
-  | some (.floatReg ..) => some cx.ops.fMin
-  | _ => .none
-
-def specFloatMax (d : Nat) (n : NodeId) (s : S F) : Option F :=
-  match cx.graph n with
-  | some (.float _ _ _ mx _) => sonFloat cx (valSem cx d) mx s
-  | some (.floatReg ..) => some cx.ops.fMax
-  | _ => .none
-
-def specFloatInc (d : Nat) (n : NodeId) (s : S F) : Option (Option F) :=
-  match cx.graph n with
-  | some (.float _ _ _ _ inc) =>
-    match inc with
-    | some i => (immFloat cx (valSem cx d) i s).map some
-    | .none => some .none
-  | some (.floatReg ..) => some .none
-  | _ => .none
+/-- R16 / R17 at reference depth `d` -/
+def specIntMin (d : Nat) (n : NodeId) (s : S F) : Option Int := specIntMinP cx (valSem cx d) n s
+def specIntMax (d : Nat) (n : NodeId) (s : S F) : Option Int := specIntMaxP cx (valSem cx d) n s
+def specIntInc (d : Nat) (n : NodeId) (s : S F) : Option (Option Int) := specIntIncP cx (valSem cx d) n s
+def specFloatMin (d : Nat) (n : NodeId) (s : S F) : Option F := specFloatMinP cx (valSem cx d) n s
+def specFloatMax (d : Nat) (n : NodeId) (s : S F) : Option F := specFloatMaxP cx (valSem cx d) n s
+def specFloatInc (d : Nat) (n : NodeId) (s : S F) : Option (Option F) := specFloatIncP cx (valSem cx d) n s
 
 /-- R18. `max_length`: unbounded (`i64::MAX`) for a String over a constant, that of the
 pValue string node otherwise; the register length for a StringReg. -/
@@ -746,11 +906,13 @@ def specEnumSetByName (d : Nat) (n : NodeId) (name : String) (s : S F) : Option 
   | _ => .none
 
 /-- graphs inside the scope of this reference semantics: no converter / swiss-knife nodes -/
-def NoFormulaNodes : Prop :=
-  ∀ n, match cx.graph n with
+def NoFormulaAt (n : NodeId) : Prop :=
+  match cx.graph n with
     | some (.converter ..) | some (.intConverter ..) | some (.swissKnife ..)
     | some (.intSwissKnife ..) => False
     | _ => True
+
+def NoFormulaNodes : Prop := ∀ n, NoFormulaAt cx n
 
 end
 end CamVerif.GenApiSem
